@@ -5,7 +5,7 @@ C20(a) (function-level harnesses), of C05-C07 (decompression candidates,
 whole program) and of C01(b)/C02 (compression corpus, whole program) are
 re-run in AddressSanitizer+UBSan builds, and the function-level harnesses
 additionally under MemorySanitizer.  Any sanitizer report is a violation."""
-import time
+import time, os
 from lib import common, codecx, decdiff, compcorpus, build, bzref
 
 LEVEL = 'exploration'
@@ -14,16 +14,43 @@ def run(tier):
     chk = common.Check('C08', LEVEL, tier, quick_deadline=280, thorough_deadline=2400)
     total = 0
     distinct = 0
+    quick = tier == 'quick'
+    # function level, ASan+UBSan and MSan: ten single-threaded harness runs, started now and
+    # collected at the end; they share the machine with the whole-program batches below
+    from concurrent.futures import ThreadPoolExecutor
+    r0 = decdiff.candidates(tier)[1]
+    pool = ThreadPoolExecutor(max_workers=10)
+    futs = {}
+    def fn_leg(variant, leg, extra_streams):
+        try:
+            x = codecx.exe(variant)           # build (cached) outside the timing
+        except build.BuildError as e:
+            return None, [], str(e)[-1500:]
+        if leg == 'c09':
+            d = common.scratch('c08s')
+            p = os.path.join(d, 'streams.%s.bin' % variant)
+            codecx.write_streams(p, extra_streams)
+            return codecx.run_leg('c09', 'quick', variant, [p], timeout=max(10, chk.left() - 15))
+        # quick tier: the reduced 'san' scopes (sanitizer builds are 3-10x slower); thorough: the quick scopes
+        return codecx.run_leg(leg, 'san' if quick else 'quick', variant, timeout=max(10, chk.left() - 15))
+    # streams for the retrieve/emit split leg: valid ones and some invalid ones of the candidate set
+    refq = bzref.batch([d for _, d, _ in r0])
+    valid = [d for (_, d, _), v in zip(r0, refq) if v['ok'] and len(d) < 400][:: (12 if quick else 3)]
+    some_bad = [d for (_, d, _), v in zip(r0, refq) if not v['ok'] and 30 < len(d) < 200][:: (240 if quick else 60)]
+    for variant in ('asan', 'msan'):
+        for leg in ('c14', 'c20', 'c01', 'c04', 'c09'):
+            futs[(variant, leg)] = pool.submit(fn_leg, variant, leg, valid + some_bad)
     # whole program, decompression candidates
     r = decdiff.run_all(tier, variant='asan')
     n = 0
     for cname, res in r['res'].items():
         for i, x in enumerate(res):
             n += 1
-            if x['sanitizer'] or x['kind'] in ('crash', 'rawexit'):
+            if x['sanitizer'] or x['kind'] in ('crash', 'rawexit') or (x['inv'] & 256):
                 d = r['cands'][i]
                 chk.violation('C08|decompress|%s' % x['stderr_head'].split(' on ')[0][:60],
-                              'decompressing candidate %s (%s): %s(%s) %s' % (d[0], cname, x['kind'], x['code'], x['stderr_head']),
+                              'decompressing candidate %s (%s): %s(%s) %s%s' % (d[0], cname, x['kind'], x['code'], x['stderr_head'],
+                                                                               ' [heap block overrun]' if x['inv'] & 256 else ''),
                               {'engine': 'lbzx-batch', 'variant': 'asan', 'argv': ['lbzip2', '-d'], 'stdin_hex': d[1].hex()[:8000]})
     chk.leg('decompress-asan', executions=n, candidates=len(r['cands']))
     total += n
@@ -33,36 +60,42 @@ def run(tier):
         c = compcorpus.run_all(tier, variant='asan')
         for i, m in enumerate(c['meta']):
             for which, x in (('compress', c['res'][i]), ('decompress', c['dres'][i])):
-                if x['sanitizer'] or x['kind'] in ('crash', 'rawexit'):
+                if x['sanitizer'] or x['kind'] in ('crash', 'rawexit') or (x['inv'] & 256):
                     chk.violation('C08|%s|%s' % (which, x['stderr_head'].split(' on ')[0][:60]),
-                                  '%s of %s (%s): %s(%s) %s' % (which, m['name'], m, x['kind'], x['code'], x['stderr_head']),
+                                  '%s of %s (%s): %s(%s) %s%s' % (which, m['name'], m, x['kind'], x['code'], x['stderr_head'],
+                                                                  ' [heap block overrun]' if x['inv'] & 256 else ''),
                                   {'engine': 'lbzx-batch', 'variant': 'asan', 'input': m})
         chk.leg('compress-asan', roundtrips=len(c['meta']))
         total += 2 * len(c['meta'])
         distinct += len(c['meta'])
     else:
         chk.cap('deadline: compression corpus not run under ASan')
-    # function level, ASan+UBSan and MSan
-    valid = [d for (_, d, _), v in zip(r['cands'], r['ref']) if v['ok'] and len(d) < 400][:: 3]
-    some_bad = [d for (_, d, _), v in zip(r['cands'], r['ref']) if not v['ok'] and 30 < len(d) < 200][:: 60]
-    for variant in ('asan', 'msan'):
-        for leg, extra in (('c14', None), ('c20', None), ('c01', None), ('c04', None), ('c09', valid + some_bad)):
-            if chk.left() < 40:
-                chk.cap('deadline: function-level leg %s/%s not run' % (leg, variant))
-                continue
-            if leg == 'c09':
-                st = codecx.c09(chk, 'quick', extra, variant=variant)
-            else:
-                st = codecx._apply(chk, 'C08', 'quick' if (variant == 'msan' or tier == 'quick') else tier, leg, variant=variant)
-            if st:
-                k = {'c14': 'scan_calls', 'c20': 'vectors', 'c01': 'inputs', 'c04': 'sequences', 'c09': 'retrieve_runs'}[leg]
-                total += st.get(k, 0)
-                distinct += st.get(k, 0)
-                chk.leg('function-level-%s-%s' % (variant, leg), cases=st.get(k, 0), wall_s=st.get('wall_s'))
+    # collect the function-level legs
+    for (variant, leg), f in futs.items():
+        try:
+            stats, viols, raw = f.result(timeout=max(5, chk.left() - 5))
+        except Exception as e:
+            chk.cap('deadline: function-level leg %s/%s did not finish (%s)' % (leg, variant, type(e).__name__))
+            continue
+        name = 'function-level-%s-%s' % (variant, leg)
+        if stats is None:
+            chk.leg(name, status='unbound: harness does not compile against this tree', detail=raw[-300:])
+            continue
+        if stats.get('timeout'):
+            chk.cap('deadline: function-level leg %s/%s stopped after %s s' % (leg, variant, stats.get('wall_s')))
+            continue
+        k = {'c14': 'scan_calls', 'c20': 'vectors', 'c01': 'inputs', 'c04': 'sequences', 'c09': 'retrieve_runs'}[leg]
+        chk.leg(name, cases=stats.get(k, 0), wall_s=stats.get('wall_s'), exit=stats.get('exit'))
+        total += stats.get(k, 0)
+        distinct += stats.get(k, 0)
+        for v in viols[:8]:
+            chk.violation('C08|fn|%s|%s|%s' % (variant, leg, v.split(':')[0][:60]), 'C08 function-level %s (%s build): %s' % (leg, variant, v),
+                          {'engine': 'codecx', 'variant': variant, 'cmdline': '%s %s quick' % (codecx.exe(variant), leg)})
+    pool.shutdown(wait=False)
     chk.cov.update({'evaluations': total, 'distinct_nontrivial': distinct,
                     'rule': 'the candidate sets of C05-C07 (x2 configurations), the compression corpus of C01/C02 (compress + decompress) under ASan+UBSan '
-                            'whole-program builds; the function-level enumerations of C01/C04/C09/C14/C20 under ASan+UBSan and under MSan; '
-                            'oracle: no sanitizer report, no crash'})
+                            'whole-program builds (plus heap canaries of the harness allocator); the function-level enumerations of C01/C04/C09/C14/C20 '
+                            'under ASan+UBSan and under MSan; oracle: no sanitizer report, no crash'})
     chk.sample({'decompress_candidates': len(r['cands']), 'first': r['cands'][0][0], 'last': r['cands'][-1][0]})
     chk.assumptions += ['sanitizers only see what the enumerated inputs execute; inputs outside the scopes are not covered',
                         'whole-program runs are not MSan-built (libc parts would need instrumenting); the codec harnesses run the same codec code']
